@@ -231,14 +231,23 @@ pub fn check_unary(rep: &mut Report, orc: &mut Oracle, a: &Moc, target: u8, kind
   ok
 }
 
-/// Operators fed by another lazy operator (degrade / not of a leaf) rather than by a leaf:
+/// Operators fed by another lazy operator (degrade / not of a leaf, and / or / xor / minus of two leaves) rather than by a leaf:
 /// "whatever kind of source feeds it".  The oracle operand is the reference result of the feeder.
 fn lazy_fed<T: Idx, QQ: Inst<T>>(op: &str, feeder: u8, t: u8, a: &Moc, b: &Moc, ka: u64, kb: u64, fed_left: bool) -> Result<(u8, Vec<(u64, u64)>), String> {
   let ma: RangeMOC<T, QQ> = to_range_moc(a);
   let mb: RangeMOC<T, QQ> = to_range_moc(b);
   let op2 = op.to_string();
   catch(move || {
-    let fa: DynIt<T, QQ> = if feeder == 0 { DynIt::new(leaf(ka, &ma).degrade(t)) } else { DynIt::new(leaf(ka, &ma).not()) };
+    // feeders 2..5: a binary lazy operator over (a, b) whose right operand comes from source kind kc
+    let kc = (kb + 3) % N_SRC_KINDS;
+    let fa: DynIt<T, QQ> = match feeder {
+      0 => DynIt::new(leaf(ka, &ma).degrade(t)),
+      1 => DynIt::new(leaf(ka, &ma).not()),
+      2 => DynIt::new(leaf(ka, &ma).and(leaf(kc, &mb))),
+      3 => DynIt::new(leaf(ka, &ma).or(leaf(kc, &mb))),
+      4 => DynIt::new(leaf(ka, &ma).xor(leaf(kc, &mb))),
+      _ => DynIt::new(leaf(ka, &ma).minus(leaf(kc, &mb))),
+    };
     let lb = leaf(kb, &mb);
     let (l, r) = if fed_left { (fa, lb) } else { (lb, fa) };
     match op2.as_str() {
@@ -252,8 +261,13 @@ fn lazy_fed<T: Idx, QQ: Inst<T>>(op: &str, feeder: u8, t: u8, a: &Moc, b: &Moc, 
 
 pub fn check_fed(rep: &mut Report, orc: &mut Oracle, a: &Moc, b: &Moc, t: u8, ka: u64, kb: u64) -> bool {
   let mut ok = true;
-  for feeder in [0u8, 1u8] {
-    let fcase = if feeder == 0 { format!("DEG {} {} {} {}", a.q.c(), a.w, a.dr(), t) } else { format!("NOT {} {} {}", a.q.c(), a.w, a.dr()) };
+  const FEEDERS: [&str; 6] = ["degrade", "not", "and", "or", "xor", "minus"];
+  for feeder in [0u8, 1, 2, 3, 4, 5] {
+    let fcase = match feeder {
+      0 => format!("DEG {} {} {} {}", a.q.c(), a.w, a.dr(), t),
+      1 => format!("NOT {} {} {}", a.q.c(), a.w, a.dr()),
+      _ => format!("OP2 {} {} {} {} {}", FEEDERS[feeder as usize], a.q.c(), a.w, a.dr(), b.dr()),
+    };
     let fans = orc.ask(&fcase);
     let fa = match parse_ok_moc(&fans) {
       Some((d, r)) => Moc { q: a.q, w: a.w, d, r },
@@ -278,8 +292,8 @@ pub fn check_fed(rep: &mut Report, orc: &mut Oracle, a: &Moc, b: &Moc, t: u8, ka
             Err(p) => p.clone(),
           };
           rep.violation(
-            &format!("lazy {} fed by lazy {} differs from the set-theoretic result", op, if feeder == 0 { "degrade" } else { "not" }),
-            &format!("{} # feeder={} of {}[{}] (target {}) on the {} side, other operand {}", case, if feeder == 0 { "degrade" } else { "not" }, SRC_NAMES[ka as usize], a.dr(), t, if fed_left { "left" } else { "right" }, SRC_NAMES[kb as usize]),
+            &format!("lazy {} fed by lazy {} differs from the set-theoretic result", op, FEEDERS[feeder as usize]),
+            &format!("{} # feeder={} of {}[{}] (target {}; binary feeders: right operand = the other operand from source kind (kb+3)%5) on the {} side, other operand {}", case, FEEDERS[feeder as usize], SRC_NAMES[ka as usize], a.dr(), t, if fed_left { "left" } else { "right" }, SRC_NAMES[kb as usize]),
             &obs, &ans, "C01_binary_ops_set_semantics + C01_degrade_set_semantics / C01_complement_set_semantics");
         }
       }
